@@ -167,8 +167,10 @@ func c01GenValid(r *vf.Rand, form string, forceAlg string) (c01Valid, error) {
 		s := c01GenSigner(r, a, kid)
 		if form != "compact" && form != "jwt" && r.Intn(4) == 0 {
 			s.Unprot = map[string]any{"x-unprot": "u" + fmt.Sprint(i)}
-			if r.Intn(3) == 0 && via == "indep" && !useKid && len(s.Prot) == 0 {
-				s.AlgUnprot = true // alg only in the unprotected header, no protected header at all
+			if r.Intn(3) == 0 {
+				// alg only in the unprotected header: next to a protected header without alg, or
+				// (independent encoder, nothing to protect) with no protected header at all
+				s.AlgUnprot = true
 			}
 		}
 		sp.Signers = append(sp.Signers, s)
